@@ -296,6 +296,7 @@ def r09_4(prog: Program, rep: Report):
     f = prog.function(f"{MOD}.static_order")
     t = ("param", f.params[0])
     ref_ok = plain_ok = False
+    other = []
     for p, r in P.returns(P.paths_of(prog, f)):
         isref = [pol for g, pol in p.guards() if T.is_call_to(g, "builtins.isinstance") and g[2][0] == t]
         if isref and isref[-1] is True and not any(isref[:-1]):
@@ -307,7 +308,10 @@ def r09_4(prog: Program, rep: Report):
             it = ("call", ("ref", f"{MOD}.itertypes"), (t,), ())
             if r == ("list", (("star", it),)) or (T.is_call_to(r, "builtins.list") and r[2] == (it,)):
                 plain_ok = True
+            else:
+                other.append(T.show(r)[:70])
     rep.check(ref_ok, "R09.4", f.qualname, f.loc, "str/ForwardRef inputs are evaluated and delegated to the memoised static_order", "a reference input is not evaluated and passed back through static_order", detail="reference")
+    rep.check(not other, "R09.4", f.qualname, f.loc, "no other exit for a non-reference input", f"a non-reference input has an exit that is not the fresh list of itertypes(t) ({other[0] if other else ''}): nodes or lists of another memoised entry are handed out (and relabelled) instead of being built for this annotation", detail="plain-only")
     rep.check(plain_ok, "R09.4", f.qualname, f.loc, "otherwise the result is exactly [*itertypes(t)]", "static_order is not exactly the list of itertypes(t)", detail="plain")
     g = prog.function(f"{MOD}.itertypes")
     ok = False
@@ -328,6 +332,8 @@ def run(prog: Program, rep: Report, tier: str):
     rep.rule("R09.3", "_level = generic arguments ∪ type hints of the unwrapped parent", floor=3)
     rep.rule("R09.8", "members that arrive as references are evaluated, not emitted as un-flagged reference nodes", floor=1)
     r09_8(prog, rep)
+    rep.rule("R09.9", "leaf test of the walk: no concrete class (incl. one defining __call__) is a leaf, the documented special forms are", floor=1)
+    C.leaf_test_agreement(prog, rep, "R09.9")
     rep.rule("R09.4", "reference inputs delegate to the memoised self; plain inputs = [*itertypes(t)]", floor=4)
     rep.rule("R09.7", "references are named by qualified name and own module (refs.forwardref rules, shared with R11.7)", floor=5)
     rep.rule("R09.6", "termination: revisits of every type with members are cut (shared with R07.6)", floor=1)
